@@ -2,7 +2,8 @@
    Part 1 is stated over the outcome table REGENERATED from /repo on every run (gen/Gen_BifOutcomes.v);
    part 2 over the line-reader models that harness/py/checks/c18.py runs against the implementation (C18/Harness.v). *)
 From Miller Require Import Base.Bytes Base.Record C18.BifTable C18.Exceptions C18.Model C18.Proofs C18.TableProofs gen.Gen_BifOutcomes.
-From Miller Require C01.Model C01.ModelXtab C01.ModelLite C18.ModelReaders C18.ProofsReaders.
+From Miller Require Import C18.VerbTable C18.VerbProofs gen.Gen_VerbOutcomes.
+From Miller Require C01.Model C01.ModelXtab C01.ModelLite C18.ModelReaders C18.ProofsReaders C18.ModelBar C18.ProofsBar C18.ModelJson C18.ProofsJson.
 Open Scope N_scope.
 
 (* ---- part 1: built-in functions x argument-kind tuples ---- *)
@@ -32,6 +33,27 @@ Theorem C18_bif_unlisted_functions_clean :
   sh_bad s = [] /\ sh_ok s = sh_nreps s ^ sh_arity s.
 Proof. exact unlisted_clean. Qed.
 Print Assumptions C18_bif_unlisted_functions_clean.
+
+(* ---- part 5: verbs x argument lists (ParseCLI grammar) and degenerate record streams ---- *)
+
+(* every case of every row of the regenerated verb outcome table ended with output (exit 0) or with a message on stderr and a
+   non-zero exit: no Go panic, no hang, no internal-coding-error exit, no silent failure *)
+Theorem C18_verb_table_no_panic_or_hang :
+  forall r, In r gen_verb_rows -> v_bad r = [] /\ v_ok r + v_err r = v_cases r.
+Proof. exact verb_no_bad. Qed.
+Print Assumptions C18_verb_table_no_panic_or_hang.
+
+(* every verb of `mlr help list-verbs` has a row, with at least 12 cases *)
+Theorem C18_verb_table_covers_every_verb :
+  forall n, In n gen_verbs -> verb_covered gen_verb_rows 12 n = true.
+Proof. exact (proj1 (forallb_forall _ _) verbs_all_covered). Qed.
+Print Assumptions C18_verb_table_covers_every_verb.
+
+Example C18_verbs_nonvacuous :
+  (60 <=? N.of_nat (List.length gen_verbs)) = true
+  /\ existsb (fun r => beqb (v_name r) (B "sort") && (1 <=? v_ok r) && (1 <=? v_err r)) gen_verb_rows = true
+  /\ existsb (fun r => beqb (v_name r) (B "seqgen") && (1 <=? v_ok r) && (1 <=? v_err r)) gen_verb_rows = true.
+Proof. exact verb_table_nonvacuous. Qed.
 
 (* ---- part 2: line readers ---- *)
 
@@ -97,7 +119,7 @@ Proof. split; [exact table_nonvacuous|]. vm_compute. repeat split; reflexivity. 
    is a structurally recursive function bytes -> COk records | CErr class -- the line / field / byte loops recurse on the
    list they consume, no fuel) ---- *)
 Module R.
-Import C01.Model C01.ModelXtab C01.ModelLite C18.ModelReaders C18.ProofsReaders.
+Import C01.Model C01.ModelXtab C01.ModelLite C18.ModelReaders C18.ProofsReaders C18.ModelBar C18.ProofsBar C18.ModelJson C18.ProofsJson.
 
 (* CSV, for ALL byte strings and ALL option records (implicit header, lazy quotes, dedupe, ragged, skip-trivial, separator):
    each outcome happens exactly on its malformed class.  The classes, in the order in which they win:
@@ -191,5 +213,68 @@ Example C18_readers_nonvacuous :
   /\ read_lite_c (pprint_opts true false) (B "a  b" ++ [LF] ++ B "1 -" ++ [LF]) = COk [[(B "a", B "1"); (B "b", [])]]
   /\ read_xtab_c (B " ") true (B "a   1" ++ [LF] ++ B "b" ++ [LF; LF; LF] ++ B " c" ++ [LF])
      = COk [[(B "a", B "1"); (B "b", [])]; [([], B "c")]].
+Proof. vm_compute. repeat split; reflexivity. Qed.
+(* ---- part 2c: barred PPRINT (--ipprint --barred-input) and markdown (--imd) readers, one Go reader
+   (RecordReaderPprintBarredOrMarkdown, explicit and implicit header), modelled as repaired in HEAD (ff74c4ac8 80287c7ad
+   75f65c604 6be21e050).  For ALL byte strings and ALL option records (markdown or barred, implicit header, dedupe, ragged):
+   total; an error exactly when ragged mode is off and some block (maximal run of non-blank lines) has a row -- a line that is
+   neither a separator line nor a line with fewer than two padded fields -- whose cell count differs from the block's first row;
+   the message carries the header size, the row size and the number of the FIRST offending line; a row always comes from a line
+   with at least two padded fields (no negative make([]string, npad-2)). *)
+Theorem C18_bar_err_iff : forall o s, (exists e, read_bar_c o s = CErr e) <-> bar_malformed o s = true.
+Proof. exact read_bar_err_iff. Qed.
+Print Assumptions C18_bar_err_iff.
+
+Theorem C18_bar_ok_iff : forall o s, (exists rs, read_bar_c o s = COk rs) <-> bar_malformed o s = false.
+Proof. exact read_bar_ok_iff. Qed.
+Print Assumptions C18_bar_ok_iff.
+
+Theorem C18_bar_error_position : forall o s e,
+  read_bar_c o s = CErr e ->
+  exists (hs fs : list bytes) pre post,
+    bar_events (b_md o) 0 (lines_of s) = pre ++ EvRow fs :: post
+    /\ e = EMismatch (nlen hs) (nlen fs) (1 + N.of_nat (List.length pre))
+    /\ List.length hs <> List.length fs /\ b_ragged o = false
+    /\ (List.length pre < List.length (lines_of s))%nat.
+Proof. exact read_bar_err_position. Qed.
+Print Assumptions C18_bar_error_position.
+
+Theorem C18_bar_row_has_two_padded_fields : forall md nb l fs, bar_event md nb l = EvRow fs ->
+  exists pf : list bytes, (2 <= List.length pf)%nat /\ List.length fs = (List.length pf - 2)%nat.
+Proof. exact bar_event_row_cells. Qed.
+Print Assumptions C18_bar_row_has_two_padded_fields.
+
+Example C18_bar_nonvacuous :
+  read_bar_c (mkB true false true false) (B "| a | b |" ++ [LF] ++ B "| --- | ---: |" ++ [LF] ++ B "| x\|y | - |" ++ [LF] ++ B "| --- | --- |" ++ [LF])
+    = COk [[(B "a", B "x|y"); (B "b", B "-")]; [(B "a", B "---"); (B "b", B "---")]]
+  /\ read_bar_c (mkB true false true false) (B "| a | b |" ++ [LF] ++ B "| 1 |" ++ [LF]) = CErr (EMismatch 2 1 2)
+  /\ read_bar_c (mkB false true true false) (B "+---+" ++ [LF] ++ B "no bars" ++ [LF] ++ B "| 1 | 2 |" ++ [LF] ++ B "| 3 |" ++ [LF]) = CErr (EMismatch 2 1 4)
+  /\ read_bar_c (mkB false true true true) (B "| 1 | 2 |" ++ [LF] ++ B "| 3 |" ++ [LF])
+     = COk [[(B "1", B "1"); (B "2", B "2")]; [(B "1", B "3"); (B "2", [])]].
+Proof. vm_compute. repeat split; reflexivity. Qed.
+(* ---- part 2d: Miller's layer over the JSON decoder (record_reader_json.go processHandle), on the sequence of decoded top-level
+   values (the decoder itself is not modelled: a text it rejects is the abstract value TDecodeErr).  For ALL sequences: records
+   exactly when every top-level value is a map or an array of maps (then: the maps in order); otherwise the error of the FIRST
+   offending value -- "unmillerable ... got <kind>" with the kind of the scalar / of the first non-map element, or the decoder's
+   error -- and nothing after it is looked at. *)
+Theorem C18_json_layer_ok_iff : forall vs, (exists ids, json_layer vs = JOk ids) <-> forallb millerable vs = true.
+Proof. exact json_layer_ok_iff. Qed.
+Print Assumptions C18_json_layer_ok_iff.
+
+Theorem C18_json_layer_records : forall vs, forallb millerable vs = true -> json_layer vs = JOk (flat_map top_ids vs).
+Proof. exact json_layer_ok. Qed.
+Print Assumptions C18_json_layer_records.
+
+Theorem C18_json_layer_first_error : forall vs, forallb millerable vs = false ->
+  exists pre bad post e, vs = pre ++ bad :: post /\ forallb millerable pre = true /\ millerable bad = false
+    /\ err_of bad = Some e /\ json_layer vs = JErr e.
+Proof. exact json_layer_err. Qed.
+Print Assumptions C18_json_layer_first_error.
+
+Example C18_json_layer_nonvacuous :
+  json_layer [TMap 1; TArr [EMap 2; EMap 3]; TArr []] = JOk [1; 2; 3]
+  /\ json_layer [TMap 1; TArr [EMap 2; EOther 7; EOther 1]; TDecodeErr] = JErr (JUnmillerable 7)
+  /\ json_layer [TArr [EMap 2]; TScalar 4; TMap 5] = JErr (JUnmillerable 4)
+  /\ json_layer [TMap 1; TDecodeErr; TScalar 1] = JErr JDecode.
 Proof. vm_compute. repeat split; reflexivity. Qed.
 End R.
